@@ -49,13 +49,45 @@ pub fn workers() -> usize {
     })
 }
 
-/// Silence the default panic message for panics we catch on purpose.
+lazy_static::lazy_static! {
+    /// every panic of the process (any thread), as "location | message"
+    pub static ref PANIC_LOG: std::sync::Mutex<Vec<String>> = std::sync::Mutex::new(vec![]);
+}
+
+/// Silence the default panic message for panics we catch on purpose, but remember all of them.
 pub fn quiet_panics() {
     std::panic::set_hook(Box::new(|info| {
+        let loc = info.location().map(|l| format!("{}:{}", l.file(), l.line())).unwrap_or_default();
+        let msg = if let Some(s) = info.payload().downcast_ref::<&str>() {
+            s.to_string()
+        } else if let Some(s) = info.payload().downcast_ref::<String>() {
+            s.clone()
+        } else {
+            String::new()
+        };
+        if let Ok(mut l) = PANIC_LOG.lock() {
+            if l.len() < 10_000 {
+                l.push(format!("{} | {}", loc, msg));
+            }
+        }
         if std::env::var("VERIF_SHOW_PANICS").is_ok() {
             eprintln!("panic: {}", info);
         }
     }));
+}
+
+pub fn take_panics() -> Vec<String> {
+    std::mem::take(&mut *PANIC_LOG.lock().unwrap())
+}
+
+/// Threads that nun-db spawns itself have no per-thread directory override: give the
+/// process-global default (NUN_DBS_DIR, read once) an existing scratch directory.
+pub fn init_default_dir() {
+    let d = format!("{}/default-dbs", scratch_base());
+    std::fs::create_dir_all(&d).unwrap();
+    if std::env::var("NUN_DBS_DIR").is_err() {
+        std::env::set_var("NUN_DBS_DIR", &d);
+    }
 }
 
 pub fn panic_msg(e: &Box<dyn std::any::Any + Send>) -> String {
